@@ -477,6 +477,24 @@ func genC04(r *rand.Rand, tier string) []Case {
 		c.ReadProg = []bool{true, true, true, true}
 		cases = append(cases, c)
 	}
+	// records of a few kilobytes up to beyond 64 KiB under every compression type, compressible and not (decompressors
+	// deliver their output in chunks; buffer pools have size classes)
+	for k := 0; k < 4; k++ {
+		c := &c04Case{Comp: k, WBuf: []int{4096, 64}[k%2], RBuf: []int{64, 4096}[k%2], SeekLen: 4096}
+		for j, n := range []int{4095, 4097, 9000 + r.Intn(100), 33000 + r.Intn(100), 66000 + r.Intn(100)} {
+			rec := make([]byte, n)
+			if j%2 == 0 {
+				r.Read(rec)
+			} else {
+				for x := range rec {
+					rec[x] = byte('a' + (x/7)%5)
+				}
+			}
+			c.Prog = append(c.Prog, wOp{Op: "write", Rec: rec})
+		}
+		c.ReadProg = []bool{true, false, true, true, false, true}
+		cases = append(cases, c)
+	}
 	// a payload that contains the complete image of a record (a record whose payload is itself a serialized record)
 	for k := 0; k < 2; k++ {
 		c := &c04Case{Comp: 0, WBuf: 4096, RBuf: 4096, SeekLen: []int{4, 4096}[k], Embedded: true}
